@@ -598,3 +598,250 @@ theorem C17_gen_fresh_instance_defaults :
   (repeat' split) <;> simp_all <;> decide
 
 end Primaite.Database
+
+namespace Primaite.Database
+
+/-! ## 5. No restore by a fix completion while the service cannot act (round 4)
+
+`DatabaseService._update_fix_status` calls `restore_backup()` when the FIXING countdown ends, and `apply_timestep` calls
+`backup_database()` at timestep 1.  Both are gated by the SERVICE's `_can_perform_action()` like the direct calls: a fix that
+completes while the service is stopped / paused / disabled / restarting (or its node is not ON) makes the health GOOD but
+does NOT fetch the backup.  (Seeded change C17-d asked the FTP client instead.) -/
+
+theorem tickPower_downloads (s : Server) : s.tickPower.downloads = s.downloads ∧ s.tickPower.file = s.file ∧
+    s.tickPower.conns = s.conns := by
+  unfold Server.tickPower Server.startUp Server.shutDown
+  dsimp only
+  (repeat' split) <;> simp
+
+/-- the service's own `apply_timestep` while it cannot act: neither the timestep-1 backup nor the restore of a completing fix
+happens - for EVERY health / fix countdown / restart countdown / timestep -/
+theorem tickSvc_cannot_act (s : Server) (b : Backup) (t : Nat) (pq pr big k : Bool) (h : s.canAct = false) :
+    (s.tickSvc b t pq pr big k).2 = b ∧ (s.tickSvc b t pq pr big k).1.file = s.file ∧
+    (s.tickSvc b t pq pr big k).1.downloads = s.downloads ∧ (s.tickSvc b t pq pr big k).1.conns = s.conns ∧
+    (s.tickSvc b t pq pr big k).1.node = s.node := by
+  have hb : ∀ s' : Server, s'.canAct = false → ∀ b pq big, backupDatabase s' b pq big = (s', b, false) :=
+    fun s' h' b pq big => (C17_unavailable_backup_restore s' h' b pq true big true).1
+  have hr : ∀ s' : Server, s'.canAct = false → ∀ b pq pr k, restoreBackup s' b pq pr k = (s', false) :=
+    fun s' h' b pq pr k => (C17_unavailable_backup_restore s' h' b pq pr true k).2
+  have hfix : ∀ s' : Server, s'.canAct = false → ∀ b, (s'.tickFix b pq pr k).file = s'.file ∧
+      (s'.tickFix b pq pr k).downloads = s'.downloads ∧ (s'.tickFix b pq pr k).conns = s'.conns ∧
+      (s'.tickFix b pq pr k).node = s'.node ∧ (s'.tickFix b pq pr k).op = s'.op ∧ (s'.tickFix b pq pr k).restartCd = s'.restartCd := by
+    intro s' h' b
+    unfold Server.tickFix
+    split
+    · split
+      · have hc' : Server.canAct { s' with health := .good, fixCd := 0 } = false := h'
+        rw [hr _ hc']
+        exact ⟨rfl, rfl, rfl, rfl, rfl, rfl⟩
+      · exact ⟨rfl, rfl, rfl, rfl, rfl, rfl⟩
+    · exact ⟨rfl, rfl, rfl, rfl, rfl, rfl⟩
+  have hrst : ∀ s' : Server, s'.tickRestart.file = s'.file ∧ s'.tickRestart.downloads = s'.downloads ∧
+      s'.tickRestart.conns = s'.conns ∧ s'.tickRestart.node = s'.node := by
+    intro s'; unfold Server.tickRestart; (repeat' split) <;> exact ⟨rfl, rfl, rfl, rfl⟩
+  unfold Server.tickSvc
+  split
+  · exact ⟨rfl, rfl, rfl, rfl, rfl⟩
+  · dsimp only
+    split
+    · rw [hb s h]
+      dsimp only
+      have := hfix s h b
+      have h2 := hrst (s.tickFix b pq pr k)
+      exact ⟨rfl, by rw [h2.1, this.1], by rw [h2.2.1, this.2.1], by rw [h2.2.2.1, this.2.2.1], by rw [h2.2.2.2, this.2.2.2.1]⟩
+    · have := hfix s h b
+      have h2 := hrst (s.tickFix b pq pr k)
+      exact ⟨rfl, by rw [h2.1, this.1], by rw [h2.2.1, this.2.1], by rw [h2.2.2.1, this.2.2.1], by rw [h2.2.2.2, this.2.2.2.1]⟩
+
+/-- **A tick restores (and backs up) only if the service can act.**  For every server state - every lifecycle state,
+health, fix countdown, restart countdown, node state and countdowns - every backup host, timestep and path / saturation
+input: if, after the node's own power step of this tick, the service cannot act (not RUNNING, or the node not ON), the tick
+leaves the database file, downloads/, the connection table and the backup host's copy exactly as they were.  In particular a
+FIXING countdown that ends in such a tick does not fetch the backup. -/
+theorem C17_tick_restores_only_if_running (s : Server) (b : Backup) (t : Nat) (pq pr big k : Bool)
+    (h : s.tickPower.canAct = false) :
+    (serverTick s b t pq pr big k).2 = b ∧ (serverTick s b t pq pr big k).1.file = s.file ∧
+    (serverTick s b t pq pr big k).1.downloads = s.downloads ∧ (serverTick s b t pq pr big k).1.conns = s.conns := by
+  have hp := tickPower_downloads s
+  unfold serverTick
+  dsimp only
+  split
+  · exact ⟨rfl, hp.2.1, hp.1, hp.2.2⟩
+  · have hf := tickFtpc_frame s.tickPower
+    split
+    · have hc : s.tickPower.tickFtpc.canAct = false := by
+        unfold Server.canAct at h ⊢; rw [hf.2.2.2.2.2.2.2.1, hf.2.2.2.2.2.2.1]; exact h
+      have := tickSvc_cannot_act s.tickPower.tickFtpc b t pq pr big k hc
+      exact ⟨this.1, by rw [this.2.1, hf.2.2.1, hp.2.1], by rw [this.2.2.1, hf.2.2.2.2.2.2.2.2, hp.1],
+             by rw [this.2.2.2.1, hf.1, hp.2.2]⟩
+    · have := tickSvc_cannot_act s.tickPower b t pq pr big k h
+      have hf2 := tickFtpc_frame (s.tickPower.tickSvc b t pq pr big k).1
+      dsimp only
+      exact ⟨this.1, by rw [hf2.2.2.1, this.2.1, hp.2.1], by rw [hf2.2.2.2.2.2.2.2.2, this.2.2.1, hp.1],
+             by rw [hf2.1, this.2.2.2.1, hp.2.2]⟩
+
+/-- non-vacuity: data COMPROMISED, fix requested, service stopped before the countdown ends: the completing tick makes the
+health GOOD and leaves the file COMPROMISED (the seeded C17-d tree restored it) -/
+example :
+    let st : State := { clients := [{}] }
+    let ops : List Op := [.backup true, .connect 0, .hQuery 0 .delete, .svc .fix, .svc .stop, .tick true true true, .tick true true true]
+    (run st ops).srv.op = .stopped ∧ (run st ops).srv.health = .good ∧ (run st ops).srv.file = some .compromised ∧
+    (run st (ops ++ [.svc .start, .restore true true])).srv.file = some .good := by decide
+
+/-- a service that stays out of action by itself: PAUSED or DISABLED (never started by a boot), or STOPPED on a node that is
+not booting -/
+def Server.Halted (s : Server) : Prop :=
+  s.op = .paused ∨ s.op = .disabled ∨ (s.op = .stopped ∧ s.node.st ≠ .booting)
+
+theorem halted_cannot_act (s : Server) (h : s.Halted) : s.canAct = false := by
+  unfold Server.canAct
+  rcases h with h | h | ⟨h, _⟩ <;> simp [h]
+
+theorem node_tick_facts (n : Node) :
+    (n.tick.2.1 = true → n.st = .booting) ∧ (n.tick.2.2 = true → n.tick.1.st = .off) ∧
+    (n.tick.1.st = .booting → n.st = .booting) := by
+  unfold Node.tick
+  dsimp only
+  cases hst : n.st <;> (repeat' split) <;> simp_all
+
+theorem startUp_op (s : Server) :
+    s.startUp.node = s.node ∧ (s.op = .paused → s.startUp.op = .paused) ∧ (s.op = .disabled → s.startUp.op = .disabled) := by
+  unfold Server.startUp svcStart
+  dsimp only
+  refine ⟨by split <;> rfl, ?_, ?_⟩ <;> intro h <;> split <;> simp [h]
+
+theorem shutDown_op (s : Server) :
+    s.shutDown.node = s.node ∧ (s.op = .paused → s.shutDown.op = .paused ∨ s.shutDown.op = .stopped) ∧
+    (s.op = .disabled → s.shutDown.op = .disabled) ∧ (s.op = .stopped → s.shutDown.op = .stopped) := by
+  unfold Server.shutDown svcStop
+  dsimp only
+  refine ⟨by split <;> rfl, ?_, ?_, ?_⟩ <;> intro h <;> split <;> simp [h]
+
+theorem halted_tickPower (s : Server) (h : s.Halted) : s.tickPower.Halted := by
+  have hn := node_tick_facts s.node
+  unfold Server.Halted at h ⊢
+  unfold Server.tickPower
+  dsimp only
+  generalize hs1 : ({ s with node := s.node.tick.1 } : Server) = s1
+  have h1op : s1.op = s.op := by rw [← hs1]
+  have h1node : s1.node = s.node.tick.1 := by rw [← hs1]
+  by_cases hb : s.node.tick.2.1 = true
+  · -- the node finished booting in this tick: `start()` of every service - which starts only a STOPPED one
+    have hboot := hn.1 hb
+    simp only [hb, if_true]
+    have hsu := startUp_op s1
+    rcases h with h | h | ⟨h, h'⟩
+    · have e1 : s1.startUp.op = .paused := hsu.2.1 (by rw [h1op, h])
+      by_cases hd : s.node.tick.2.2 = true
+      · simp only [hd, if_true]
+        have hsd := shutDown_op s1.startUp
+        rcases hsd.2.1 e1 with e | e
+        · exact Or.inl e
+        · refine Or.inr (Or.inr ⟨e, ?_⟩)
+          rw [hsd.1, hsu.1, h1node, hn.2.1 hd]; decide
+      · simp only [hd, Bool.false_eq_true, if_false]; exact Or.inl e1
+    · have e1 : s1.startUp.op = .disabled := hsu.2.2 (by rw [h1op, h])
+      by_cases hd : s.node.tick.2.2 = true
+      · simp only [hd, if_true]; exact Or.inr (Or.inl ((shutDown_op s1.startUp).2.2.1 e1))
+      · simp only [hd, Bool.false_eq_true, if_false]; exact Or.inr (Or.inl e1)
+    · exact absurd hboot h'
+  · simp only [hb, Bool.false_eq_true, if_false]
+    by_cases hd : s.node.tick.2.2 = true
+    · simp only [hd, if_true]
+      have hsd := shutDown_op s1
+      have hoff : s1.shutDown.node.st ≠ .booting := by rw [hsd.1, h1node, hn.2.1 hd]; decide
+      rcases h with h | h | ⟨h, h'⟩
+      · rcases hsd.2.1 (by rw [h1op, h]) with e | e
+        · exact Or.inl e
+        · exact Or.inr (Or.inr ⟨e, hoff⟩)
+      · exact Or.inr (Or.inl (hsd.2.2.1 (by rw [h1op, h])))
+      · exact Or.inr (Or.inr ⟨hsd.2.2.2 (by rw [h1op, h]), hoff⟩)
+    · simp only [hd, Bool.false_eq_true, if_false]
+      rcases h with h | h | ⟨h, h'⟩
+      · exact Or.inl (by rw [h1op, h])
+      · exact Or.inr (Or.inl (by rw [h1op, h]))
+      · refine Or.inr (Or.inr ⟨by rw [h1op, h], ?_⟩)
+        rw [h1node]; intro hc; exact h' (hn.2.2 hc)
+
+theorem halted_keep (s s' : Server) (h : s.Halted) (hop : s'.op = s.op) (hn : s'.node = s.node) : s'.Halted := by
+  unfold Server.Halted at h ⊢; rw [hop, hn]; exact h
+
+theorem halted_serverTick (s : Server) (b : Backup) (t : Nat) (pq pr big k : Bool) (h : s.Halted) :
+    (serverTick s b t pq pr big k).1.Halted := by
+  have hp := halted_tickPower s h
+  have hsvc : ∀ s' : Server, s'.Halted → (s'.tickSvc b t pq pr big k).1.Halted := by
+    intro s' h'
+    have hc := halted_cannot_act s' h'
+    have hnode := (tickSvc_cannot_act s' b t pq pr big k hc).2.2.2.2
+    refine halted_keep s' _ h' ?_ hnode
+    -- the operating state: only a RESTARTING service changes it in its tick
+    have hb := (C17_unavailable_backup_restore s' hc b pq true big true).1
+    unfold Server.tickSvc
+    split
+    · rfl
+    · dsimp only
+      have hnr : s'.op ≠ .restarting := by
+        rcases h' with h1 | h1 | ⟨h1, _⟩ <;> rw [h1] <;> decide
+      have hfixop : ∀ x : Server, x.canAct = false → (x.tickFix b pq pr k).op = x.op := by
+        intro x hx
+        unfold Server.tickFix
+        split
+        · split
+          · have hc' : Server.canAct { x with health := .good, fixCd := 0 } = false := hx
+            rw [(C17_unavailable_backup_restore _ hc' b pq pr true k).2]
+          · rfl
+        · rfl
+      have hrs : ∀ x : Server, x.op ≠ .restarting → x.tickRestart.op = x.op := by
+        intro x hx; unfold Server.tickRestart; simp [hx]
+      split
+      · rw [hb]; dsimp only
+        rw [hrs _ (by rw [hfixop s' hc]; exact hnr), hfixop s' hc]
+      · rw [hrs _ (by rw [hfixop s' hc]; exact hnr), hfixop s' hc]
+  unfold serverTick
+  dsimp only
+  split
+  · exact hp
+  · split
+    · have hf := tickFtpc_frame s.tickPower
+      exact hsvc _ (halted_keep _ _ hp hf.2.2.2.2.2.2.1 hf.2.2.2.2.2.2.2.1)
+    · have hf := tickFtpc_frame (s.tickPower.tickSvc b t pq pr big k).1
+      exact halted_keep _ _ (hsvc _ hp) hf.2.2.2.2.2.2.1 hf.2.2.2.2.2.2.2.1
+
+/-- the operations by which time passes and clients / red applications / backup / restore calls arrive - everything but an
+administrator starting the service again -/
+def Op.isTrafficOrTick : Op → Bool
+  | .tick _ _ _ => true
+  | op => op.isTraffic
+
+/-- **While the service is halted, nobody restores - not even a completing fix.**  From any state in which the database
+service is PAUSED, DISABLED, or STOPPED on a node that is not booting, along EVERY sequence of ticks (any number, with any
+fix / restart countdown running out in any of them), connects, queries, disconnects, executes, uninstalls, red-application
+attacks, `backup_database()` and `restore_backup()` calls: the service stays halted, and the database file, downloads/ and
+the connection table are exactly what they were.  (Only the health may change: a fix completes to GOOD.) -/
+theorem C17_halted_service_never_restores_run (st : State) (ops : List Op)
+    (hops : ∀ op ∈ ops, op.isTrafficOrTick = true) (h : st.srv.Halted) :
+    (run st ops).srv.Halted ∧ (run st ops).srv.file = st.srv.file ∧ (run st ops).srv.downloads = st.srv.downloads ∧
+    (run st ops).srv.conns = st.srv.conns := by
+  have := (run_reach st ops).invariant
+    (I := fun s => s.Halted ∧ s.file = st.srv.file ∧ s.downloads = st.srv.downloads ∧ s.conns = st.srv.conns)
+    (fun s e ⟨op, hm, ha⟩ hs => by
+      have hop := hops op hm
+      by_cases htick : ∃ g d k, op = .tick g d k
+      · obtain ⟨g, d, k, rfl⟩ := htick
+        obtain ⟨b, t, pq, pr, big, kk, rfl⟩ := ha
+        have hh := halted_serverTick s b t pq pr big kk hs.1
+        have hc : s.tickPower.canAct = false := halted_cannot_act _ (halted_tickPower s hs.1)
+        have hk := C17_tick_restores_only_if_running s b t pq pr big kk hc
+        exact ⟨hh, by rw [show (SrvEv.tick b t pq pr big kk).apply s = (serverTick s b t pq pr big kk).1 from rfl, hk.2.1]; exact hs.2.1,
+               by rw [show (SrvEv.tick b t pq pr big kk).apply s = (serverTick s b t pq pr big kk).1 from rfl, hk.2.2.1]; exact hs.2.2.1,
+               by rw [show (SrvEv.tick b t pq pr big kk).apply s = (serverTick s b t pq pr big kk).1 from rfl, hk.2.2.2]; exact hs.2.2.2⟩
+      · have htr : op.isTraffic = true := by
+          cases op <;> first | exact hop | (exfalso; exact htick ⟨_, _, _, rfl⟩)
+        have := apply_unavailable s e (halted_cannot_act s hs.1) (traffic_events op htr e ha)
+        rw [this]; exact hs)
+    ⟨h, rfl, rfl, rfl⟩
+  exact this
+
+example : ({ op := .stopped } : Server).Halted := Or.inr (Or.inr ⟨rfl, by decide⟩)
+
+end Primaite.Database
